@@ -143,6 +143,10 @@ def crystal_descs(draw, sgs=None, max_orbits=3, force_letters=None, anchor=None,
         k0 = 3 * len(orbits) + 24 * salt
         orbits.append({"letter": l, "q": [gc.generic(draw, k0 + j, 0.05, 0.95) for j in range(3)], "Z": z})
     raw = [gc.generic(draw, 17 + j + 24 * salt, 3.5, 9.0) for j in range(3)] + [gc.generic(draw, 20 + j + 24 * salt, 75.0, 105.0) for j in range(3)]
+    if orbits and draw(st.integers(0, 5)) == 0:
+        # boundary values of the free parameters: one orbit gets every free parameter exactly 0 (an atom at the origin of a polar
+        # axis / plane, as ase.build.bulk("ZnS", "wurtzite") has) - the lower end of the documented range [0, 1)
+        orbits[draw(st.integers(0, len(orbits) - 1))]["q"] = [0.0, 0.0, 0.0]
     d = {"sg": sg, "orbits": orbits, "raw": raw}
     if draw(st.integers(0, 4)) == 0:
         # metric pseudo-symmetry: the free angles of the crystal system are 90 deg +- a little, the free lengths nearly equal
